@@ -2,7 +2,7 @@
    through LMBase.IEEE on Flocq, 8-bit cells as Z).  ExtrOcamlBasic only. *)
 From Coq Require Import List ZArith NArith Extraction ExtrOcamlBasic.
 From LMBase Require Import Res IEEE.
-From LMMaxi Require Import MaxiModel.
+From LMMaxi Require Import MaxiModel MaxiBuffer.
 
 (* ----- f32 ----- *)
 Definition mk_f32 := F32.of_bits.
@@ -62,6 +62,16 @@ Definition u8_check_C07 := @check_C07 Z Z.leb.
 Definition u8_index_usize := @index_usize Z.
 Definition u8_get := @get Z.
 
+(* ----- reused buffers (MaxiBuffer.v) ----- *)
+Definition f32_buf_run (C : nat) := @b_run F32.t C (@vec_resize F32.t F32.zero C) (@b_empty F32.t).
+Definition u8_buf_run (C : nat) := @b_run Z C (@vec_resize Z 0%Z C) (@b_empty Z).
+Definition f32_buf_argmax_generic := @buf_argmax_generic F32.t F32.le.
+Definition f32_buf_max_generic := @buf_max_generic F32.t F32.le.
+Definition f32_buf_threshold_generic := @buf_threshold_generic F32.t F32.le.
+Definition u8_buf_argmax_generic := @buf_argmax_generic Z Z.leb.
+Definition u8_buf_max_generic := @buf_max_generic Z Z.leb.
+Definition u8_buf_threshold_generic := @buf_threshold_generic Z Z.leb.
+
 Extraction Language OCaml.
 Extraction "maxi_model.ml"
   mk_f32 bits_f32 f32_is_nan f32_le f32_argmax_generic f32_max_generic f32_threshold
@@ -71,4 +81,7 @@ Extraction "maxi_model.ml"
   f32_score_def f32_terms_ok f32_check_padding f32_check_padding_max f32_okv f32_is_ninf f32_ninf f32_is_finite
   u8_argmax_generic u8_max_generic u8_threshold u8_argmax_avx2 u8_max_avx2 u8_dispatch_argmax
   u8_dispatch_max u8_ss_argmax u8_ss_threshold u8_unstripe u8_lin_argmax u8_lin_max u8_lin_threshold
-  u8_check_max u8_check_argmax u8_check_threshold u8_check_C07 u8_index_usize u8_get offset.
+  u8_check_max u8_check_argmax u8_check_threshold u8_check_C07 u8_index_usize u8_get offset
+  f32_buf_run u8_buf_run b_logical b_iter brows bmi
+  f32_buf_argmax_generic f32_buf_max_generic f32_buf_threshold_generic
+  u8_buf_argmax_generic u8_buf_max_generic u8_buf_threshold_generic.
